@@ -39,15 +39,18 @@ def _max_violation(
     problem: Problem, variables: list, values: dict[str, float], lp_data: Any = None
 ) -> float:
     """Largest violation of the problem's constraints and bounds at `values`
-    beyond the tolerance atol + rtol * max(1, |value|) + row_rtol * (|a|.|x| + |b|)
+    beyond the tolerance atol + rtol * max(1, |value|) + 1e-12 * (|a|.|x| + |b|)
     (0.0 if there is none)."""
     import numpy as np
 
     atol = rtol = 1e-6
     # A residual is computed from terms of size |a_j x_j| and |b|: whatever is
     # below their rounding noise is not a violation (rows of magnitude 1e10 and
-    # more cannot be met to 1e-6 in double precision).
-    row_rtol = 1e-9
+    # more cannot be met to 1e-6 in double precision). HiGHS optima stay within
+    # a few 1e-15 of the row magnitude; 1e-12 leaves room for that and no more:
+    # an entry HiGHS dropped (|a_ij| < 1e-9) next to a large right-hand side is
+    # worth ~1e-9 of the row and must still be seen.
+    row_rtol = 1e-12
     x_abs = np.abs(np.array([values[v.name] for v in variables], dtype=float))
     if lp_data is not None:
         # (only while the extracted rows correspond one-to-one to the constraints)
